@@ -180,7 +180,7 @@ def run_job(job):
                 acc.evaluations += 1
                 acc.nontrivial += 1
                 acc.check("map", {"curve": job["curve"], "data": pk.hex(), "what": "small-curve point"}, chk_map)
-        for x in range(C.p + 2):
+        for x in range(2 * C.p + 2):
             for prefix in (2, 3, 4, 6, 0):
                 for y in (0, 1, C.p - 1, C.p):
                     for pk in (bytes([prefix]) + x.to_bytes(32, "big"), bytes([prefix]) + x.to_bytes(32, "big") + y.to_bytes(32, "big")):
